@@ -1,5 +1,5 @@
 From Coq Require Import Extraction ExtrOcamlBasic.
-From PV Require Import Base.Bytes Base.Outcome Base.DrvBase Model.Base64 Model.MsgSign Model.MsgInst Model.MsgArmour.
+From PV Require Import Base.Bytes Base.Outcome Base.DrvBase Model.Base64 Model.MsgSign Model.MsgInst Model.MsgArmour Model.MsgUtf8.
 Extraction "../ml/c17.ml" drv_base a2b_base64 b2a_base64 bstrip decode_signature msg_magic
   t_sign_with_recid t_signature_for_message_hash t_sign_message t_pair_for_message_hash t_verify_message
-  t_hash_for_signing tsmul tG parse_signed_message parse_sections armour.
+  t_hash_for_signing tsmul tG parse_signed_message parse_sections armour utf8_encode.
